@@ -245,6 +245,9 @@ def make_points(model, interior_only=False, cap=4000, prop=None):
     x["logP"] = np.arange(len(x)) * 0.5
     x["logL"] = -np.arange(len(x)) * 0.25
     x["it"] = np.arange(len(x)) % 7
+    # any further registered non-sampling field carries its own recognisable values
+    for j_, f_ in enumerate(f for f in x.dtype.names if f not in model.names and f not in ("logP", "logL", "it")):
+        x[f_] = np.arange(len(x)) * 0.125 + 10.0 * (j_ + 1)
     return x
 
 
@@ -378,8 +381,8 @@ def check_state(model, prop, label, errs, quick):
                     i = int(np.flatnonzero(bad)[0])
                     errs.append((f"round-trip:{label}", f"{nm}: {pts[nm][i]!r} -> {xr[nm][sl][i]!r} (block {blk}, {tag})"))
                     break
-            for f in ("logP", "logL", "it"):
-                if xr[f][sl].tobytes() != pts[f].tobytes() or xp[f][sl].tobytes() != pts[f].tobytes():
+            for f in [f for f in pts.dtype.names if f not in model.names]:
+                if f not in xr.dtype.names or f not in xp.dtype.names or xr[f][sl].tobytes() != pts[f].tobytes() or xp[f][sl].tobytes() != pts[f].tobytes():
                     errs.append((f"non-sampling-field-changed:{label}", f"{f} ({tag})"))
                     break
             a, b = lj[sl], lji[sl]
@@ -533,7 +536,30 @@ def split_subsets_check(model, prop, label, errs):
     return n_eval
 
 
+EXTRA_FIELD_LABELS = ("default[wide]", "rescaletobounds[wide]", "inversion-split[wide]", "logit[wide]", "angle[2pi]", "zscore[wide]", "gw-defaults", "to-cartesian-split", "mixed", "null[wide]")
+
+
 def worker(item):
+    """Every configuration once; a few of them again while extra non-sampling fields are registered
+    (as the importance sampler does globally) and carry their own values."""
+    from nessai import livepoint as _lp
+
+    res = _worker(item)
+    cfg = item[0]
+    if cfg[0] in EXTRA_FIELD_LABELS:
+        _lp.add_extra_parameters_to_live_points(["vx_w", "vx_q"], [0.5, -1.0])
+        try:
+            cfg2 = (cfg[0] + "+extra-fields",) + tuple(cfg[1:])
+            r2 = _worker((cfg2, min(item[1], 1), item[2]))
+        finally:
+            _lp.reset_extra_live_points_parameters()
+        res["errs"] = res["errs"] + r2["errs"]
+        for k_ in ("states", "transitions", "evaluations"):
+            res["stats"][k_] += r2["stats"][k_]
+    return res
+
+
+def _worker(item):
     cfg, depth, quick = item
     label = cfg[0]
     errs = []
